@@ -673,7 +673,17 @@ pub fn string_repeat(
     args: &[JsValue],
 ) -> Result<Guarded, JsError> {
     let s = interp.to_js_string(&this);
-    let count = args.first().map(|v| v.to_number() as usize).unwrap_or(0);
+    let count = args.first().map(|v| v.to_number()).unwrap_or(0.0);
+    if count < 0.0 || count == f64::INFINITY {
+        return Err(JsError::range_error(format!(
+            "Invalid count value: {}",
+            count
+        )));
+    }
+    let count = count as usize;
+    if s.len().saturating_mul(count) > crate::value::MAX_STRING_LENGTH {
+        return Err(JsError::range_error("Invalid string length"));
+    }
     Ok(Guarded::unguarded(JsValue::String(JsString::from(
         s.as_str().repeat(count),
     ))))
@@ -870,6 +880,9 @@ pub fn string_pad_start(
         return Ok(Guarded::unguarded(JsValue::String(s)));
     }
 
+    if target_length > crate::value::MAX_STRING_LENGTH {
+        return Err(JsError::range_error("Invalid string length"));
+    }
     let pad_len = target_length - current_len;
     let mut padding = String::new();
     while padding.len() < pad_len {
@@ -899,6 +912,9 @@ pub fn string_pad_end(
         return Ok(Guarded::unguarded(JsValue::String(s)));
     }
 
+    if target_length > crate::value::MAX_STRING_LENGTH {
+        return Err(JsError::range_error("Invalid string length"));
+    }
     let pad_len = target_length - current_len;
     let mut padding = String::new();
     while padding.len() < pad_len {
